@@ -355,6 +355,8 @@ func (dht *IpfsDHT) getValues(ctx context.Context, key string, stopQuery chan st
 					Val:  val,
 					From: p,
 				}:
+				case <-stopQuery:
+					// the consumer stopped reading once it had enough responses
 				case <-ctx.Done():
 					return nil, ctx.Err()
 				}
